@@ -31,6 +31,7 @@ import itertools
 import math
 import operator
 import typing
+import warnings
 
 from scipy.spatial.transform import Rotation
 
@@ -127,6 +128,10 @@ class PVec:
         return f"PVec({self.x!r}, {self.y!r}, {self.z!r})"
 
 
+class GimbalLock(Exception):
+    """Euler angles not unique for this rotation: nothing to compare."""
+
+
 class POri:
     """Plain orientation: a scipy Rotation; intrinsic yaw (Z), pitch (X), roll (Y)."""
 
@@ -166,7 +171,12 @@ class POri:
 
     @property
     def euler(self):
-        return tuple(float(t) for t in self.r.as_euler("ZXY"))
+        with warnings.catch_warnings():
+            warnings.simplefilter("error")
+            try:
+                return tuple(float(t) for t in self.r.as_euler("ZXY"))
+            except UserWarning:
+                raise GimbalLock() from None
 
     yaw = property(lambda self: self.euler[0])
     pitch = property(lambda self: self.euler[1])
@@ -183,7 +193,7 @@ IDENT = POri.fromEuler(0, 0, 0)
 
 
 def fieldfn_plain(x, y):
-    return 0.1 * x - 0.2 * y + 0.05
+    return 0.1 * x - 0.2 * y + 0.0537
 
 
 def fieldfn(pos):
@@ -289,9 +299,27 @@ LEAVES = {
 }
 CONTINUOUS = {"R", "N", "TN"}
 
-CV0, CV1, CV2 = PVec(0, 0, 0), PVec(1, 2, 0), PVec(-3, 0.5, 2)
-CO1 = POri.fromEuler(0.3, 0.2, -0.1)
-TV0, TV1 = (0, 0, 0), (1, 2, 0)
+# named constants: ("k", name) nodes
+NAMED = {
+    "$V0": PVec(0, 0, 0),
+    "$V1": PVec(1, 2, 0),
+    "$V2": PVec(-3, 0.5, 2),
+    "$T0": (0, 0, 0),  # plain tuples used as vector operands
+    "$T1": (1, 2, 0),
+    "$I": IDENT,  # the global orientation
+    "$O1": POri.fromEuler(0.3, 0.2, -0.1),
+}
+NAMED_SRC = {
+    "$V0": "Vector(0, 0, 0)",
+    "$V1": "Vector(1, 2, 0)",
+    "$V2": "Vector(-3, 0.5, 2)",
+    "$T0": "(0, 0, 0)",
+    "$T1": "(1, 2, 0)",
+    "$I": "G.GLOBAL",
+    "$O1": "Orientation.fromEuler(0.3, 0.2, -0.1)",
+}
+NAMED_SHAPE = {"$V0": "vec0", "$V1": "vec", "$V2": "vec", "$T0": "tuple0", "$T1": "tuple", "$I": "identity", "$O1": "ori"}
+CV0, CV1, CV2, TV0, TV1, CO1 = "$V0", "$V1", "$V2", "$T0", "$T1", "$O1"
 
 BINOPS = ("+", "-", "*", "/", "//", "%", "**", "divmod")
 PYOP = {
@@ -320,70 +348,53 @@ SHORTCUTS = {
 }
 
 
+def _alph(S, CS, CA, rrS, I=("Ix",), V=("Vu",), O=("Ou",), Q=("Ll",), Z=("Su",), CV=(CV1,), CO=(CO1,), IDX=(0,)):
+    return dict(
+        leaves=dict(S=list(S), I=list(I), V=list(V), O=list(O), Q=list(Q), Z=list(Z)),
+        consts=dict(
+            CS=list(CS),  # operands of scalar arithmetic
+            CA=list(CA),  # arguments of everything else (calls, containers, vectors, ...)
+            CM=[2, -1.5],  # vector scaling
+            CE=[0.2],  # Euler angles
+            IDX=list(IDX),
+            IDX0=[0, 1],
+            CI=[2],
+            CV=[v for v in CV if not v.startswith("$T")],
+            CVT=list(CV),
+            CO=list(CO),
+            CZ=["x"],
+        ),
+        rr=dict(S=list(rrS)),
+    )
+
+
 def alphabet(level):
     """Alphabets.  'full' is used for depth-1 trees; the nested levels use smaller ones."""
     if level == "full":
-        return dict(
-            leaves=dict(
-                S=["Ui", "Uf", "Di", "Dp", "Dz", "Rp", "Rz", "Rn", "No", "Tn"],
-                I=["Ix"],
-                V=["Vu"],
-                O=["Ou"],
-                Q=["Ll", "Lm", "Lt"],
-                Z=["Su"],
-            ),
-            consts=dict(
-                CS=[0, 1, 2, -3, 2.5, -1.5, 0.0, 1.0],
-                CA=[0.5, -2],
-                IDX=[0, 1, -1],
-                CI=[2],
-                CV=[CV0, CV1, CV2, TV0, TV1],
-                CO=[IDENT, CO1],
-                CZ=["x"],
-            ),
-            rr=dict(S=["Ui", "Dz", "Rp", "Rz", "No"]),
+        return _alph(
+            S=["Ui", "Uf", "Di", "Dp", "Dz", "Rp", "Rz", "Rn", "No", "Tn"],
+            CS=[0, 1, 2, -3, 2.5, -1.5, 0.0, 1.0],
+            CA=[0.5, -2],
+            rrS=["Ui", "Dz", "Rp", "Rz", "No"],
+            Q=["Ll", "Lm", "Lt"],
+            CV=[CV0, CV1, CV2, TV0, TV1],
+            CO=["$I", CO1],
+            IDX=[0, 1, -1],
         )
-    if level == "outer":  # constants / extra leaves combined with a non-leaf child
-        return dict(
-            leaves=dict(S=["Ui", "Rz"], I=["Ix"], V=["Vu"], O=["Ou"], Q=[], Z=[]),
-            consts=dict(
-                CS=[0, 1, 2, -1.5],
-                CA=[0.5],
-                IDX=[0, -1],
-                CI=[2],
-                CV=[CV0, CV1],
-                CO=[IDENT, CO1],
-                CZ=["x"],
-            ),
-        )
-    if level == "outer-small":
-        return dict(
-            leaves=dict(S=[], I=[], V=[], O=[], Q=[], Z=[]),
-            consts=dict(CS=[0, 1, -1.5], CA=[0.5], IDX=[0], CI=[2], CV=[CV0, CV1], CO=[IDENT], CZ=["x"]),
-        )
-    if level == "outer-tiny":
-        return dict(
-            leaves=dict(S=[], I=[], V=[], O=[], Q=[], Z=[]),
-            consts=dict(CS=[1, 2], CA=[0.5], IDX=[0], CI=[2], CV=[CV1], CO=[CO1], CZ=["x"]),
-        )
-    if level == "inner":  # alphabet of the subtrees that get nested
-        return dict(
-            leaves=dict(S=["Ui", "Rz", "No"], I=["Ix"], V=["Vu"], O=["Ou"], Q=["Ll"], Z=["Su"]),
-            consts=dict(CS=[2, -1.5], CA=[0.5], IDX=[0], CI=[2], CV=[CV1], CO=[CO1], CZ=["x"]),
-            rr=dict(S=["Ui", "Rz"]),
-        )
+    # ---- subtrees that get nested ----
+    if level == "inner":
+        return _alph(S=["Ui", "Rz", "No"], CS=[2, -1.5], CA=[0.5], rrS=["Ui", "Rz"])
     if level == "inner-small":
-        return dict(
-            leaves=dict(S=["Ui", "Rz", "No"], I=["Ix"], V=["Vu"], O=["Ou"], Q=["Ll"], Z=["Su"]),
-            consts=dict(CS=[2], CA=[0.5], IDX=[0], CI=[2], CV=[CV1], CO=[CO1], CZ=["x"]),
-            rr=dict(S=[]),
-        )
+        return _alph(S=["Ui", "Rz", "No"], CS=[2], CA=[0.5], rrS=[])
     if level == "inner-tiny":
-        return dict(
-            leaves=dict(S=["Ui", "Rz"], I=[], V=["Vu"], O=[], Q=["Ll"], Z=[]),
-            consts=dict(CS=[2], CA=[0.5], IDX=[0], CI=[2], CV=[CV1], CO=[CO1], CZ=["x"]),
-            rr=dict(S=[]),
-        )
+        return _alph(S=["Ui", "Rz"], CS=[-1.5], CA=[0.5], rrS=[], I=[], O=[], Z=[])
+    # ---- what a non-leaf child is combined with ----
+    if level == "outer":
+        return _alph(S=["Ui", "Rz"], CS=[0, 1, 2, -1.5], CA=[0.5], rrS=[], Q=[], Z=[], CV=[CV0, CV1], CO=["$I", CO1], IDX=[0, -1])
+    if level == "outer-small":
+        return _alph(S=[], CS=[0, 1, -1.5], CA=[0.5], rrS=[], I=[], V=[], O=[], Q=[], Z=[], CV=[CV0, CV1], CO=["$I", CO1])
+    if level == "outer-tiny":
+        return _alph(S=[], CS=[2], CA=[0.5], rrS=[], I=[], V=[], O=[], Q=[], Z=[])
     raise ValueError(level)
 
 
@@ -404,6 +415,7 @@ def _productions():
     S = ("S", "CS")
     for op in BINOPS:
         add(f"bin{op}", "Q" if op == "divmod" else "S", [S, S], lambda a, b, op=op: ("bin", op, a, b))
+    S = ("S", "CA")  # everything that is not scalar arithmetic combines with the small pool
     for op in UNOPS:
         add(f"un-{op}", "S", [("S", None)], lambda a, op=op: ("un", op, a))
     add("round-ndigits", "S", [("S", None)], lambda a: ("rnd", a, 1))
@@ -438,37 +450,32 @@ def _productions():
     add("meth-dot", "S", [V, V], lambda a, b: ("meth", "dot", a, (b,), ()))
     add("meth-angleTo", "S", [V, V], lambda a, b: ("meth", "angleTo", a, (b,), ()))
     add("meth-rotatedBy", "V", [V, ("S", "CA")], lambda a, b: ("meth", "rotatedBy", a, (b,), ()))
-    add(
-        "meth-rotatedBy-kw",
-        "V",
-        [V, ("S", "CA")],
-        lambda a, b: ("meth", "rotatedBy", a, (), (("angleOrOrientation", b),)),
-    )
     add("meth-rotatedBy-ori", "V", [V, ("O", "CO")], lambda a, b: ("meth", "rotatedBy", a, (b,), ()))
     add(
         "meth-offsetRotated",
         "V",
         [V, ("S", "CA")],
-        lambda a, b: ("meth", "offsetRotated", a, (b, ("c", CV1)), ()),
+        lambda a, b: ("meth", "offsetRotated", a, (b, ("k", CV1)), ()),
     )
     add("meth-upper", "Z", [("Z", None)], lambda a: ("meth", "upper", a, (), ()))
     add("meth-count", "S", [("Q", None), S], lambda a, b: ("meth", "count", a, (b,), ()))
     add("meth-localAnglesFor", "Q", [("O", "CO"), ("O", "CO")], lambda a, b: ("meth", "localAnglesFor", a, (b,), ()))
     # vectors
     add("vec", "V", [S, S], lambda a, b: ("vec", (a, b)))
-    add("vec3", "V", [S, ("S", "CA"), S], lambda a, b, c: ("vec", (a, b, c)), maxrand=2)
-    add("vec+", "V", [V, V], lambda a, b: ("bin", "+", a, b))
-    add("vec-", "V", [V, V], lambda a, b: ("bin", "-", a, b))
-    add("vec*s", "V", [V, S], lambda a, b: ("bin", "*", a, b))
-    add("s*vec", "V", [S, V], lambda a, b: ("bin", "*", a, b))
-    add("vec/s", "V", [V, S], lambda a, b: ("bin", "/", a, b))
+    add("vec3", "V", [S, S, S], lambda a, b, c: ("vec", (a, b, c)), maxrand=1)
+    VT = ("V", "CVT")  # vector operands of + and - may also be plain 3-tuples
+    add("vec+", "V", [VT, VT], lambda a, b: ("bin", "+", a, b))
+    add("vec-", "V", [VT, VT], lambda a, b: ("bin", "-", a, b))
+    add("vec*s", "V", [V, ("S", "CM")], lambda a, b: ("bin", "*", a, b))
+    add("s*vec", "V", [("S", "CM"), V], lambda a, b: ("bin", "*", a, b))
+    add("vec/s", "V", [V, ("S", "CM")], lambda a, b: ("bin", "/", a, b))
     # orientations
     O = ("O", "CO")
     add("ori*", "O", [O, O], lambda a, b: ("bin", "*", a, b))
     add("ori+s", "O", [O, ("S", "CA")], lambda a, b: ("bin", "+", a, b))
     add("s+ori", "O", [("S", "CA"), O], lambda a, b: ("bin", "+", a, b))
-    add("euler", "O", [S, ("S", "CA"), ("S", "CA")], lambda a, b, c: ("euler", (a, b, c)), maxrand=2)
-    add("euler-pitch", "O", [("S", "CA"), ("S", None), ("S", "CA")], lambda a, b, c: ("euler", (a, b, c)), maxrand=1)
+    add("euler", "O", [S, ("S", "CE"), ("S", "CE")], lambda a, b, c: ("euler", (a, b, c)), maxrand=1)
+    add("euler-pitch", "O", [("S", "CE"), ("S", None), ("S", "CE")], lambda a, b, c: ("euler", (a, b, c)), maxrand=1)
     # strings
     Z = ("Z", "CZ")
     add("str+", "Z", [Z, Z], lambda a, b: ("bin", "+", a, b))
@@ -483,7 +490,7 @@ def _productions():
     add("cont-dict-in-tuple", "K", [S, S], lambda a, b: ("tup", (("dct", (("k", a),)), b)))
     add("cont-tuple-vec", "K", [("V", None), S], lambda a, b: ("tup", (a, b)))
     # indexing a container literal
-    add("idx-literal", "S", [S, S, ("I", "IDX")], lambda a, b, i: ("idx", ("tup", (a, b)), i), maxrand=2)
+    add("idx-literal", "S", [("S", None), S, ("I", "IDX0")], lambda a, b, i: ("idx", ("tup", (a, b)), i), maxrand=2)
     # derived leaves
     add("star", "S", [("Q", None)], lambda a: ("M", "star", None, a))
     add("star-extra", "S", [("Q", None), S], lambda a, b: ("M", "star", None, a, b))
@@ -496,8 +503,15 @@ def _productions():
 PRODUCTIONS = _productions()
 
 
+QUICK_DEPTH1_ONLY = {
+    "bindivmod", "un-pos", "round-ndigits", "call-f1-allkw", "call-pair-kw", "call-min", "call-cos", "cont-nested-tuple",
+    "cont-dict-in-tuple", "cont-list", "vec3", "s*vec", "vec/s", "meth-offsetRotated", "meth-angleTo", "meth-dot",
+    "s+ori", "euler-pitch", "uniform-of", "star-extra", "slice-hi", "meth-localAnglesFor", "idx-literal", "call-pair",
+}  # fmt: skip
+
+
 def is_const(n):
-    return n[0] == "c"
+    return n[0] in ("c", "k")
 
 
 def nleaves(n):
@@ -505,19 +519,19 @@ def nleaves(n):
         return 0
     if n[0] in ("L", "P", "D"):
         return 1
-    if n[0] == "c":
+    if n[0] in ("c", "k"):
         return 0
     return sum(nleaves(x) for x in n[1:] if isinstance(x, tuple))
 
 
 def nderived(n):
-    if not isinstance(n, tuple) or not n or n[0] == "c":
+    if not isinstance(n, tuple) or not n or n[0] in ("c", "k"):
         return 0
     return (1 if n[0] == "M" else 0) + sum(nderived(x) for x in n[1:] if isinstance(x, tuple))
 
 
 def depth(n):
-    if not isinstance(n, tuple) or not n or n[0] in ("c", "L", "P", "D"):
+    if not isinstance(n, tuple) or not n or n[0] in ("c", "k", "L", "P", "D"):
         return 0
     if n[0] in ("tup", "lst", "nt", "vec", "euler"):
         return 1 + max(depth(x) for x in n[1])
@@ -530,7 +544,19 @@ def depth(n):
     return 1 + max([depth(x) for x in n[1:] if isinstance(x, tuple)] or [0])
 
 
-def expand(fresh, older, consts, maxleaves=3, allow_ff=True, only=None, rr=None):
+def shortcut_of(n):
+    """Name of the identity simplification a ("bin", op, a, b) node is an instance of, if any."""
+    if n[0] != "bin":
+        return None
+    for side, c in (("r", n[3]), ("l", n[2])):
+        if c[0] == "c" and isinstance(c[1], (int, float)) and not isinstance(c[1], bool):
+            for (op, sd, val), name in SHORTCUTS.items():
+                if op == n[1] and sd == side and c[1] == val:
+                    return name
+    return None
+
+
+def expand(fresh, older, consts, maxleaves=3, allow_ff=True, only=None, rr=None, lean=False):
     """All applications of the productions with >= 1 'fresh' child.
 
     fresh / older: dict type -> list of random expressions; consts: pool name -> values.
@@ -547,9 +573,21 @@ def expand(fresh, older, consts, maxleaves=3, allow_ff=True, only=None, rr=None)
             if st == "S":  # index leaves are scalars too
                 pass
             if pool is not None:
-                c += [(("c", v), "c") for v in consts.get(pool, ())]
+                c += [((("k", v) if isinstance(v, str) and v.startswith("$") else ("c", v)), "c") for v in consts.get(pool, ())]
             cands.append(c)
-        for combo in itertools.product(*cands):
+        if allow_ff:
+            combos = itertools.product(*cands)
+        else:  # exactly one fresh child: choose its slot, fill the others with older / constants
+            combos = itertools.chain.from_iterable(
+                itertools.product(
+                    *[
+                        [x for x in c if (x[1] == "f") == (j == i)]
+                        for i, c in enumerate(cands)
+                    ]
+                )
+                for j in range(len(cands))
+            )
+        for combo in combos:
             nf = sum(1 for _, t in combo if t == "f")
             if nf == 0:
                 continue
@@ -565,6 +603,11 @@ def expand(fresh, older, consts, maxleaves=3, allow_ff=True, only=None, rr=None)
             if sum(nleaves(n) for n, _ in combo) > maxleaves:
                 continue
             node = p.make(*[n for n, _ in combo])
+            if lean and p.name.startswith("bin") and node[0] == "bin":
+                # lean outer level: 0 and 1 only where they are identity elements
+                cs = [n[1] for n, t in combo if t == "c"]
+                if cs and cs[0] in (0, 1) and shortcut_of(node) is None:
+                    continue
             fam = p.name + ":" + "".join("c" if t == "c" else "r" for _, t in combo)
             out[p.rtype].append((fam, node))
     return out
@@ -582,7 +625,7 @@ def number(node):
         if not isinstance(n, tuple) or not n:
             return n
         k = n[0]
-        if k == "c":
+        if k in ("c", "k"):
             return n
         if k == "L":
             if len(n) == 3:
@@ -633,7 +676,10 @@ def enumerate_trees(tier):
     outer = alphabet("outer" if tier == "thorough" else "outer-small")
     i1 = expand(leaf_nodes(inner), {}, inner["consts"], rr=inner.get("rr"))
     fresh = {t: [n for _, n in i1[t]] for t in i1 if t != "K"}
-    d2 = expand(fresh, leaf_nodes(outer), outer["consts"], allow_ff=False)
+    only2 = None
+    if tier != "thorough":  # quick: near-duplicate productions are applied at depth 1 only
+        only2 = {p.name for p in PRODUCTIONS} - QUICK_DEPTH1_ONLY
+    d2 = expand(fresh, leaf_nodes(outer), outer["consts"], allow_ff=False, lean=(tier != "thorough"), only=only2)
     for t in d2:
         put(d2[t], 2)
 
@@ -641,13 +687,16 @@ def enumerate_trees(tier):
     if tier == "thorough":
         tiny = alphabet("inner-tiny")
         otiny = alphabet("outer-tiny")
-        scalar_only = {p.name for p in PRODUCTIONS if p.name.startswith(("bin", "un-", "call-f1", "call-hypot", "call-max", "attr-", "vec", "idx", "meth-norm", "meth-distanceTo", "range-of", "discrete-range-of", "cont-tuple", "cont-dict"))}
+        scalar_only = {f"bin{op}" for op in BINOPS if op != "divmod"} | {
+            "un-neg", "un-abs", "un-round", "call-f1-kw", "call-hypot", "call-max", "vec", "attr-x", "meth-norm",
+            "range-of", "discrete-range-of", "cont-tuple", "cont-dict", "idx",
+        }  # fmt: skip
         t1 = expand(leaf_nodes(tiny), {}, tiny["consts"], rr=tiny.get("rr"), only=scalar_only)
         f1_ = {t: [n for _, n in t1[t]] for t in t1 if t != "K"}
         t2 = expand(f1_, {}, otiny["consts"], allow_ff=False, only=scalar_only)
         f2_ = {t: [n for _, n in t2[t]] for t in t2 if t != "K"}
         o3 = alphabet("outer-small")
-        t3 = expand(f2_, {}, o3["consts"], allow_ff=False, only=scalar_only)
+        t3 = expand(f2_, {}, o3["consts"], allow_ff=False, only=scalar_only, lean=True)
         for t in t3:
             put(t3[t], 3)
 
@@ -675,7 +724,7 @@ def enumerate_trees(tier):
 
 def children(n):
     k = n[0]
-    if k in ("c", "L", "P"):
+    if k in ("c", "k", "L", "P"):
         return []
     if k == "D":
         return [n[2]]
@@ -712,14 +761,10 @@ def walk(n):
 def shape(n):
     """Coarse description of an operand, for signatures."""
     k = n[0]
+    if k == "k":
+        return NAMED_SHAPE[n[1]]
     if k == "c":
         v = n[1]
-        if isinstance(v, PVec):
-            return "vec0" if (v.x, v.y, v.z) == (0, 0, 0) else "vec"
-        if isinstance(v, POri):
-            return "identity" if v is IDENT else "ori"
-        if isinstance(v, tuple):
-            return "tuple0" if all(t == 0 for t in v) else "tuple"
         if isinstance(v, str):
             return "str"
         if v == 0:
@@ -780,20 +825,6 @@ def nodekey(n):
 # ==========================================================================================
 
 
-def _rc(v):
-    if isinstance(v, PVec):
-        return f"Vector({v.x!r}, {v.y!r}, {v.z!r})"
-    if isinstance(v, POri):
-        if v is IDENT:
-            return "G.GLOBAL"
-        y, p, r = CO1_EULER if v is CO1 else v.euler
-        return f"Orientation.fromEuler({y!r}, {p!r}, {r!r})"
-    return repr(v)
-
-
-CO1_EULER = (0.3, 0.2, -0.1)
-
-
 def render_leaf(spec):
     k = spec[0]
     if k == "U":
@@ -824,7 +855,10 @@ def render_expr(n):
     k = n[0]
     r = render_expr
     if k == "c":
-        return _rc(n[1])
+        v = n[1]
+        return f"({v!r})" if isinstance(v, (int, float)) and v < 0 else repr(v)
+    if k == "k":
+        return NAMED_SRC[n[1]]
     if k == "L":
         return f"L{n[2]}"
     if k == "M":
@@ -833,7 +867,7 @@ def render_expr(n):
         return f"self.{n[1]}"
     if k == "D":
         base = f"(({r(n[2])}) relative to vf).yaw"
-        return base if n[1] == "f" else f"int(10 * {base})"
+        return base if n[1] == "f" else f"int(100 * {base})"
     if k == "bin":
         if n[1] == "divmod":
             return f"divmod({r(n[2])}, {r(n[3])})"
@@ -933,16 +967,16 @@ class Built:
         self.shortcuts = []  # names of simplifications observed (result is an operand)
 
 
-def to_scenic(v):
+def to_scenic(name):
     from scenic.core.vectors import Orientation, Vector, globalOrientation
 
+    v = NAMED[name]
     if isinstance(v, PVec):
         return Vector(v.x, v.y, v.z)
-    if isinstance(v, POri):
-        if v is IDENT:
-            return globalOrientation
-        y, p, r = CO1_EULER if v is CO1 else v.euler
-        return Orientation.fromEuler(y, p, r)
+    if name == "$I":
+        return globalOrientation
+    if name == "$O1":
+        return Orientation.fromEuler(0.3, 0.2, -0.1)
     return v
 
 
@@ -986,6 +1020,8 @@ def build(tree):
     def rec(n):
         k = n[0]
         if k == "c":
+            return n[1]
+        if k == "k":
             return to_scenic(n[1])
         if k == "L":
             if n[2] not in B.leaf:
@@ -1089,20 +1125,27 @@ def to_plain(v):
         return type(v)(to_plain(c) for c in v)
     if isinstance(v, dict):
         return {k: to_plain(c) for k, c in v.items()}
-    if hasattr(v, "dtype") and hasattr(v, "item") and getattr(v, "shape", None) == ():
-        return v.item()
     return v
 
 
-def pyeval(tree, vals):
-    """Ordinary Python evaluation.  vals: ("L", i) / ("M", i) / ("P", name) / "pos" -> plain value."""
+def pyeval(tree, vals, known=None, top=False):
+    """Ordinary Python evaluation.
+
+    vals: ("L", i) / ("M", i) / ("P", name) -> plain value, "D" -> {"f": yaw, "i": int}.
+    known: optional id(node) -> already observed plain value of that node; used for the operands
+    (and, unless top=True, for the tree itself), so a node can be judged on the sampled values of
+    its operands.
+    """
     memo = {}
 
-    def ev(n):
+    def ev(n, use_known=True):
         key = id(n)
         if key in memo:
             return memo[key]
-        v = ev_(n)
+        if use_known and known is not None and key in known:
+            v = known[key]
+        else:
+            v = ev_(n)
         memo[key] = v
         return v
 
@@ -1110,6 +1153,8 @@ def pyeval(tree, vals):
         k = n[0]
         if k == "c":
             return n[1]
+        if k == "k":
+            return NAMED[n[1]]
         if k == "L":
             return vals[("L", n[2])]
         if k == "M":
@@ -1117,9 +1162,7 @@ def pyeval(tree, vals):
         if k == "P":
             return vals[("P", n[1])]
         if k == "D":
-            x, y = vals["pos"]
-            yaw = (POri.heading(fieldfn_plain(x, y)) + ev(n[2])).yaw
-            return yaw if n[1] == "f" else int(10 * yaw)
+            return vals["D"][n[1]]
         if k == "bin":
             return PYOP[n[1]](ev(n[2]), ev(n[3]))
         if k == "un":
@@ -1154,7 +1197,7 @@ def pyeval(tree, vals):
             return POri.fromEuler(*[ev(x) for x in n[1]])
         raise ValueError(k)
 
-    return ev(tree)
+    return ev(tree, use_known=not top)
 
 
 def member_ok(n, value, kidvals):
@@ -1185,12 +1228,22 @@ def _isnum(v):
     return isinstance(v, (int, float, complex)) and not isinstance(v, bool)
 
 
+def _denumpy(v):
+    if hasattr(v, "dtype") and hasattr(v, "item") and getattr(v, "shape", None) == ():
+        return v.item()
+    if type(v).__name__ == "ndarray" and v.ndim == 1:  # e.g. Euler angle triples: compared as tuples
+        return tuple(v.tolist())
+    return v
+
+
 def same(exp, act, tol=REL):
-    """None if the plain values agree, else a short reason."""
+    """None if the plain values agree (numbers by value, containers by type and elements), else a reason."""
     if isinstance(act, Unsampled) or isinstance(exp, Unsampled):
         return f"unsampled value {act!r}"
+    exp, act = _denumpy(exp), _denumpy(act)
     if isinstance(exp, bool) or isinstance(act, bool):
-        return None if (isinstance(exp, bool) and isinstance(act, bool) and exp == act) or (exp == act and _isnum(exp) != _isnum(act)) or exp == act else f"{exp!r} != {act!r}"
+        ok = (_isnum(exp) or isinstance(exp, bool)) and (_isnum(act) or isinstance(act, bool)) and exp == act
+        return None if ok else f"{exp!r} != {act!r}"
     if _isnum(exp) and _isnum(act):
         if isinstance(exp, int) and isinstance(act, int):
             return None if exp == act else f"{exp!r} != {act!r}"
@@ -1201,8 +1254,7 @@ def same(exp, act, tol=REL):
         return None if exp == act or math.isclose(exp, act, rel_tol=tol, abs_tol=tol) else f"{exp!r} != {act!r}"
     if isinstance(exp, PVec) and isinstance(act, PVec):
         for a, b in zip(exp, act):
-            r = same(a, b, max(tol, GEO))
-            if r:
+            if same(a, b, max(tol, GEO)):
                 return f"vector {exp!r} != {act!r}"
         return None
     if isinstance(exp, POri) and isinstance(act, POri):
@@ -1224,7 +1276,7 @@ def same(exp, act, tol=REL):
         if len(exp) != len(act):
             return f"{exp!r} != {act!r}"
         for i, (a, b) in enumerate(zip(exp, act)):
-            r = same(a, b, max(tol, GEO) if any(isinstance(t, float) for t in exp) and len(exp) == 3 and False else tol)
+            r = same(a, b, tol)
             if r:
                 return f"at [{i}]: {r}"
         return None
@@ -1232,28 +1284,15 @@ def same(exp, act, tol=REL):
 
 
 def to_json(n):
-    """IR -> JSON-serialisable (constants that are PVec/POri become tagged lists)."""
+    """IR -> JSON-serialisable nested lists."""
     if isinstance(n, tuple):
         return [to_json(x) for x in n]
-    if isinstance(n, PVec):
-        return {"$vec": [n.x, n.y, n.z]}
-    if isinstance(n, POri):
-        return {"$ori": "I" if n is IDENT else "CO1"}
     return n
 
 
-def from_json(n, _const=False):
-    if isinstance(n, dict):
-        if "$vec" in n:
-            x, y, z = n["$vec"]
-            for c in (CV0, CV1, CV2):
-                if (c.x, c.y, c.z) == (x, y, z):
-                    return c
-            return PVec(x, y, z)
-        return IDENT if n["$ori"] == "I" else CO1
+def from_json(n):
     if isinstance(n, list):
-        if n and n[0] == "c":
-            v = n[1]
-            return ("c", tuple(v) if isinstance(v, list) else from_json(v))
+        if len(n) == 2 and n[0] == "c":
+            return ("c", n[1])
         return tuple(from_json(x) for x in n)
     return n
